@@ -18,9 +18,10 @@ Definition scan_dffs (t : list nat) : list bline :=
   (λ cs, BDff (text_of (group 1 cs)) (text_of (clean (group 3 cs)))) <$> findall rd_re_dff t.
 
 (* the statements the reader sees, in the order it consumes them *)
-Definition bench_scan (text : string) : list bline :=
-  let t := delete_all rd_re_comment (codes text) in
+Definition scan_codes (t0 : list nat) : list bline :=
+  let t := delete_all rd_re_comment t0 in
   (scan_inputs t ++ scan_gates t ++ scan_dffs t ++ scan_outputs t)%list.
+Definition bench_scan (text : string) : list bline := scan_codes (codes text).
 
 (* the reader at character level *)
 Definition bench_read_text (name text : string) : res Circuit := bench_read name (bench_scan text).
@@ -35,3 +36,15 @@ Definition is_dff (l : bline) : bool := match l with BDff _ _ => true | _ => fal
 Definition by_pass (ls : list bline) : list bline :=
   (filter (λ l, is_input l = true) ls ++ filter (λ l, is_stmt_gate l = true) ls
    ++ filter (λ l, is_dff l = true) ls ++ filter (λ l, is_output l = true) ls)%list.
+
+(* canonical rendering of a line list (what circuit_to_bench prints, plus DFF lines): one statement per line, single blanks *)
+Fixpoint join (sep : list nat) (ws : list (list nat)) : list nat :=
+  match ws with [] => [] | [w] => w | w :: r => (w ++ sep ++ join sep r)%list end.
+Definition render_line (l : bline) : list nat :=
+  match l with
+  | BInput n => (codes "INPUT(" ++ codes n ++ [41])%list
+  | BOutput n => (codes "OUTPUT(" ++ codes n ++ [41])%list
+  | BGate net g ops => (codes net ++ codes " = " ++ codes g ++ [40] ++ join (codes ", ") (codes <$> ops) ++ [41])%list
+  | BDff q d => (codes q ++ codes " = DFF(" ++ codes d ++ [41])%list
+  end.
+Definition render (ls : list bline) : list nat := ls ≫= λ l, (render_line l ++ [10])%list.
